@@ -2,6 +2,7 @@ package main
 
 import (
 	"fmt"
+	"math"
 	"regexp"
 	"strconv"
 	"go/token"
@@ -380,6 +381,112 @@ func init() {
 		return e.newSlice(st, types.Typ[types.Uint8], int(ub), n, n)
 	}
 	models["internal/abi.NoEscape"] = func(e *Engine, st *State, args []Value, call *ssa.Call, pos token.Pos) Value { return args[0] }
+	// encoding/binary.Write (reflective in the real library): big/little-endian bytes of the fixed-width
+	// integer kinds and byte slices that occur, handed to the real writer's Write method
+	models["encoding/binary.Write"] = func(e *Engine, st *State, args []Value, call *ssa.Call, pos token.Pos) Value {
+		w, ok := args[0].(Iface)
+		if !ok || w.typ == nil {
+			panic(unsupported{"binary.Write to nil writer"})
+		}
+		big := true
+		if o, ok := args[1].(Iface); ok && o.typ != nil && strings.Contains(o.typ.String(), "littleEndian") {
+			big = false
+		}
+		d, ok := args[2].(Iface)
+		if !ok || d.typ == nil {
+			panic(unsupported{"binary.Write of nil"})
+		}
+		var out []*Term
+		emit := func(t *Term, w int) {
+			n := w / 8
+			for k := 0; k < n; k++ {
+				sh := k
+				if big {
+					sh = n - 1 - k
+				}
+				out = append(out, Extract(t, sh*8+7, sh*8))
+			}
+		}
+		var enc func(v Value, t types.Type)
+		enc = func(v Value, t types.Type) {
+			switch u := t.Underlying().(type) {
+			case *types.Basic:
+				wd, _, ok := intWidth(t)
+				if !ok {
+					panic(unsupported{"binary.Write of " + t.String()})
+				}
+				if wd == 0 {
+					out = append(out, Ite(term(v), BV(8, 1), BV(8, 0)))
+					return
+				}
+				emit(term(v), wd)
+			case *types.Slice:
+				sl := v.(SliceV)
+				if sl.obj == 0 {
+					return
+				}
+				if !sl.ln.k || !sl.off.k {
+					panic(unsupported{"binary.Write of a slice of symbolic length"})
+				}
+				o := st.obj(sl.obj)
+				for k := 0; k < int(sl.ln.c); k++ {
+					enc(e.load(st, Pointer{obj: sl.obj, off: BV(64, (sl.off.c+uint64(k))*uint64(sl.es))}, u.Elem(), pos), u.Elem())
+				}
+				_ = o
+			case *types.Array:
+				av := v.(ArrayV)
+				for _, x := range av.e {
+					enc(x, u.Elem())
+				}
+			case *types.Pointer:
+				p := v.(Pointer)
+				enc(e.load(st, p, u.Elem(), pos), u.Elem())
+			case *types.Struct:
+				sv := v.(StructV)
+				for i := 0; i < u.NumFields(); i++ {
+					enc(sv.f[i], u.Field(i).Type())
+				}
+			default:
+				panic(unsupported{"binary.Write of " + t.String()})
+			}
+		}
+		enc(d.val, d.typ)
+		sl := e.newSlice(st, types.Typ[types.Uint8], len(out), BV(64, uint64(len(out))), BV(64, uint64(len(out))))
+		o := st.wobj(sl.obj)
+		for k, b := range out {
+			o.slots[k] = b
+		}
+		ms := e.prog.MethodSets.MethodSet(w.typ)
+		for i := 0; i < ms.Len(); i++ {
+			if ms.At(i).Obj().Name() == "Write" {
+				return tailCall2{FuncV{fn: e.prog.MethodValue(ms.At(i))}, []Value{w.val, sl}, func(r Value) Value {
+					if tv, ok := r.(TupleV); ok && len(tv) == 2 {
+						return tv[1]
+					}
+					return Iface{}
+				}}
+			}
+		}
+		panic(unsupported{"binary.Write: writer has no Write method"})
+	}
+	for name, f := range map[string]func(float64) float64{"math.archTrunc": math.Trunc, "math.archFloor": math.Floor, "math.archCeil": math.Ceil, "math.archSqrt": math.Sqrt} {
+		f := f
+		models[name] = func(e *Engine, st *State, args []Value, call *ssa.Call, pos token.Pos) Value {
+			t := term(args[0])
+			if t.k {
+				return BV(64, math.Float64bits(f(math.Float64frombits(t.c))))
+			}
+			return e.internalVar("float", 64)
+		}
+	}
+	models["math.archModf"] = func(e *Engine, st *State, args []Value, call *ssa.Call, pos token.Pos) Value {
+		t := term(args[0])
+		if t.k {
+			i, fr := math.Modf(math.Float64frombits(t.c))
+			return TupleV{BV(64, math.Float64bits(i)), BV(64, math.Float64bits(fr))}
+		}
+		return TupleV{e.internalVar("float", 64), e.internalVar("float", 64)}
+	}
 	models["os.Hostname"] = func(e *Engine, st *State, args []Value, call *ssa.Call, pos token.Pos) Value {
 		return TupleV{StringV{conc: "verifhost"}, Iface{}}
 	}
@@ -708,4 +815,11 @@ func (e *Engine) sprintfConcrete(st *State, format Value, varargs Value) (string
 		}
 	}
 	return fmt.Sprintf(f, goArgs...), true
+}
+
+// tailCall2 is a tail call whose result is post-processed (e.g. (n, err) -> err).
+type tailCall2 struct {
+	fn   Value
+	args []Value
+	post func(Value) Value
 }
